@@ -645,12 +645,17 @@ func (c *Ctx) rulesC14(a *coreAnchors, la *LockAnalysis) {
 				c.check(f == want[m], "C14.site", fmt.Sprintf("%s called from %s", m, funcKey(f)), s.Pos(), "tracer callback must be issued from "+funcKey(want[m]))
 				if la != nil {
 					good := len(la.heldAt(s)) > 0
+					owned := len(la.heldAt(s)) > 0
 					for _, hr := range la.heldAt(s) {
 						if _, ok := hr.held["pkg/machine.Machine.tracersMx"]; !ok {
 							good = false
 						}
+						if hr.held[qLock] != 'W' {
+							owned = false
+						}
 					}
 					c.check(good, "C14.site", fmt.Sprintf("%s in %s holds tracersMx", m, funcKey(f)), s.Pos(), "the tracer list must be stable while callbacks are issued")
+					c.check(owned, "C14.site", fmt.Sprintf("%s in %s is issued by the queue owner", m, funcKey(f)), s.Pos(), "transition callbacks of one machine never interleave only if they are issued while the processing flag is owned")
 				}
 			}
 		}
@@ -1059,6 +1064,15 @@ func (c *Ctx) rulesC05x(a *coreAnchors) {
 		}
 		c.check(auto && other == "" && len(sets) == 1 && strictlyBefore(s, sets[0]), "C05.reenter", "emitEvents auto path recomputes Exits/Enters"+nth(i), s.Pos(),
 			fmt.Sprintf("setupExitEnter must run for every auto transition before the final phase; extra condition %q", other))
+		// ... and from the re-resolved target: after it has been cached
+		fCacheT := c.field(pm, "Transition", "cacheTargetStates")
+		after := false
+		for _, st := range c.sitesIn(a.emitEvents, "method:Store") {
+			if len(st.Common().Args) == 2 && fieldOf(st.Common().Args[0]) == fCacheT && st.Block() == s.Block() && instrIndex(st) < instrIndex(s) {
+				after = true
+			}
+		}
+		c.check(after, "C05.reenter", "Exits/Enters are recomputed after the re-resolved target is stored"+nth(i), s.Pos(), "setupExitEnter reads t.TargetStates(): called before cacheTargetStates.Store it rebuilds Enters/Exits from the stale target (final handlers run for states that were not activated)")
 	}
 	c.floor("C05.reenter", 1)
 }
